@@ -344,3 +344,40 @@ def build_c09(tier):
         log('built C09 family (%d cases) in %.0fs' % (n, time.time() - t0))
         prune_builds('c09-%s' % tier)
         return d
+
+def build_conc():
+    """concurrent driver: TSan + custom recursive mutex seam + verification hooks"""
+    srcs = [os.path.join(HARNESS, 'seq', 'rt.hpp'), os.path.join(HARNESS, 'conc', 'cmain_conc.cpp'),
+            os.path.join(HARNESS, 'shapes.py'), os.path.join(HARNESS, 'gen_seq.py')]
+    h = tree_hash(srcs)
+    d = os.path.join(BUILD, 'conc-' + h)
+    exe = os.path.join(d, 'drv_conc')
+    with Lock(os.path.join(BUILD, 'conc.lock')):
+        if os.path.exists(exe):
+            os.utime(d)
+            return d
+        t0 = time.time()
+        shutil.rmtree(d, ignore_errors=True)
+        os.makedirs(d)
+        subprocess.run([sys.executable, os.path.join(HARNESS, 'gen_seq.py'), d], check=True, stdout=subprocess.DEVNULL)
+        shutil.copy(os.path.join(HARNESS, 'seq', 'rt.hpp'), d)
+        shutil.copy(os.path.join(HARNESS, 'conc', 'cmain_conc.cpp'), d)
+        cpps = sorted(f for f in os.listdir(d) if f.endswith('.cpp'))
+        flags = ['-std=c++14', '-O1', '-g1', '-fsanitize=thread', '-fno-omit-frame-pointer', '-pthread',
+                 '-DTROMPELOEIL_CUSTOM_RECURSIVE_MUTEX', '-DROLLBEAR_TROMPELOEIL_VERIF', '-DTROMPELOEIL_SANITY_CHECKS', '-I' + INCLUDE]
+        res = compile_many([(['g++'] + flags + ['-c', c, '-o', c + '.o'], d) for c in cpps])
+        bad = [(c, r) for c, r in zip(cpps, res) if r[0] != 0]
+        if bad:
+            msg = bad[0][1][1]
+            shutil.rmtree(d, ignore_errors=True)
+            raise BuildError('concurrent driver does not compile against the current /repo/include (hooks missing?):\n' + msg[-3000:])
+        p = subprocess.run(['g++', '-fsanitize=thread', '-pthread'] + [c + '.o' for c in cpps] + ['-o', 'drv_conc'], cwd=d,
+                           stdout=subprocess.PIPE, stderr=subprocess.STDOUT, text=True)
+        if p.returncode != 0:
+            shutil.rmtree(d, ignore_errors=True)
+            raise BuildError(p.stdout[-3000:])
+        for c in cpps:
+            os.unlink(os.path.join(d, c + '.o'))
+        log('built concurrent driver in %.0fs' % (time.time() - t0))
+        prune_builds('conc')
+        return d
